@@ -3,7 +3,9 @@ package evidence
 import (
 	"time"
 
+	"github.com/kardiachain/go-kardia/kai/kaidb/memorydb"
 	"github.com/kardiachain/go-kardia/kai/state/cstate"
+	"github.com/kardiachain/go-kardia/lib/clist"
 	"github.com/kardiachain/go-kardia/mainchain/genesis"
 	kproto "github.com/kardiachain/go-kardia/proto/kardiachain/types"
 	"github.com/kardiachain/go-kardia/types"
@@ -216,5 +218,104 @@ func VerifC19_E4(v *VerifV) {
 	}
 	if expired {
 		v.Cover("expired")
+	}
+}
+
+// ---- E5: the pool's life cycle: pending -> proposed -> committed, never twice ---------------------
+
+// VerifC19_E5: two pieces of genuine evidence (different validators) and a sequence of K pool
+// operations: AddEvidence (from a peer), AddEvidenceFromConsensus, CheckEvidence of a proposed
+// block's list (one item, both items, the same item twice), Update after a block that commits
+// some of it. A reference keeps the pending and committed sets. After every step: the evidence
+// the pool offers for proposal is exactly the pending set (so it is proposed until committed and
+// not afterwards), a block list is accepted iff it has no duplicate and nothing committed, and
+// committed evidence never becomes pending again through a peer.
+func VerifC19_E5(v *VerifV) {
+	types.VerifBind()
+	// concrete powers: the evidence is stored in its wire form, whose length depends on them
+	p := []int64{10, 20}
+	total := int64(30)
+	vals := &types.ValidatorSet{Validators: []*types.Validator{{Address: types.VerifAddr(0), VotingPower: 10}, {Address: types.VerifAddr(1), VotingPower: 20}}}
+	const H, R = 7, 1
+	blockTime := time.Unix(1600000000, 0).UTC()
+	mk := func(who int) types.Evidence {
+		v1, g1 := types.VerifSignedVote(who, uint32(who), kproto.PrecommitType, H, R, verifBlockID(1))
+		v2, g2 := types.VerifSignedVote(who, uint32(who), kproto.PrecommitType, H, R, verifBlockID(2))
+		v.Assume(g1 && g2)
+		return &types.DuplicateVoteEvidence{VoteA: v1, VoteB: v2, TotalVotingPower: total, ValidatorPower: p[who], Timestamp: blockTime}
+	}
+	evs := []types.Evidence{mk(0), mk(1)}
+	st := cstate.LatestBlockState{ChainID: types.VerifChain, LastBlockHeight: H, LastBlockTime: blockTime}
+	st.ConsensusParams.Evidence.MaxAgeNumBlocks = 100
+	st.ConsensusParams.Evidence.MaxAgeDuration = time.Hour
+	pool := &Pool{blockStore: verifBlockStore{metaTime: blockTime, have: true}, stateDB: verifStateStore{vals}, state: st,
+		evidenceDB: memorydb.New(), evidenceList: clist.New(), logger: verifNopLogger{}}
+	pending := map[int]bool{}
+	committed := map[int]bool{}
+	K := v.Param("K")
+	for step := 0; step < K; step++ {
+		x := v.Choice("evidence", 2)
+		switch v.Choice("op", 6) {
+		case 0: // from a peer
+			err := pool.AddEvidence(evs[x])
+			v.Assert(err == nil, "C19.pool.genuine-evidence-refused")
+			if !committed[x] {
+				pending[x] = true
+			}
+		case 1: // from consensus (the node saw the conflict itself; not after it was committed - see outside_claim)
+			if committed[x] {
+				return
+			}
+			v.Assert(pool.AddEvidenceFromConsensus(evs[x]) == nil, "C19.pool.genuine-evidence-refused")
+			pending[x] = true
+		case 2: // a proposed block carrying one item
+			err := pool.CheckEvidence(types.EvidenceList{evs[x]})
+			v.Assert((err == nil) == !committed[x], "C19.pool.block-evidence-verdict")
+			if err == nil {
+				pending[x] = true
+			}
+			v.Cover("block-checked")
+		case 3: // a proposed block carrying the same item twice
+			err := pool.CheckEvidence(types.EvidenceList{evs[x], evs[x]})
+			v.Assert(err != nil, "C19.pool.duplicate-evidence-in-block-accepted")
+			if !committed[x] {
+				pending[x] = true // the first occurrence was verified and stored before the duplicate was seen
+			}
+		case 4: // a block commits item x
+			if committed[x] {
+				return // a block committing it again would not have passed CheckEvidence
+			}
+			st.LastBlockHeight++
+			st.LastBlockTime = st.LastBlockTime.Add(time.Second)
+			pool.Update(st, types.EvidenceList{evs[x]})
+			committed[x] = true
+			delete(pending, x)
+			v.Cover("committed")
+		case 5: // a block without evidence
+			st.LastBlockHeight++
+			st.LastBlockTime = st.LastBlockTime.Add(time.Second)
+			pool.Update(st, nil)
+		}
+		// what the pool offers for the next proposal
+		offered, _ := pool.PendingEvidence(-1)
+		seen := map[int]int{}
+		for _, e := range offered {
+			for i := range evs {
+				if e.Hash() == evs[i].Hash() {
+					seen[i]++
+				}
+			}
+		}
+		for i := range evs {
+			v.Assert(seen[i] <= 1, "C19.pool.evidence-offered-twice")
+			if committed[i] {
+				v.Assert(seen[i] == 0, "C19.pool.committed-evidence-offered-again")
+			} else if pending[i] {
+				v.Assert(seen[i] == 1, "C19.pool.pending-evidence-not-offered")
+			} else {
+				v.Assert(seen[i] == 0, "C19.pool.unknown-evidence-offered")
+			}
+		}
+		v.Assert(int(pool.Size()) == len(pending), "C19.pool.size-differs-from-pending-set")
 	}
 }
